@@ -14,6 +14,8 @@ import (
 	"sync/atomic"
 	"testing"
 	"time"
+
+	"verif.local/vsync/kern"
 )
 
 // Plan is an engine-specific, JSON-marshallable description of a run.
@@ -395,6 +397,7 @@ func StartWatchdog(cur *atomic.Uint64, onHang func(iter uint64)) (stop func()) {
 	done := make(chan struct{})
 	go func() {
 		last, since := uint64(0), time.Now()
+		alive := kern.Beats.Load()
 		t := time.NewTicker(time.Second)
 		defer t.Stop()
 		for {
@@ -404,6 +407,11 @@ func StartWatchdog(cur *atomic.Uint64, onHang func(iter uint64)) (stop func()) {
 			case <-t.C:
 			}
 			c := cur.Load()
+			if a := kern.Beats.Load(); a != alive {
+				// the current run keeps taking scheduling decisions (a long run, bounded
+				// by the kernel's step limit): not a hang
+				alive, since = a, time.Now()
+			}
 			if c != last {
 				last, since = c, time.Now()
 				continue
